@@ -181,7 +181,7 @@ class RxnWorld(BaseWorld):
     def gen(self, rngs):
         r = rngs.args
         ops = ['new_rxn', 'react', 'react', 'react', 'react', 'edit_rxn', 'warm', 'set_flows', 'restart', 'proxy',
-               'react_array', 'over_conversion']
+               'react_array', 'over_conversion', 'derive_rxn', 'stoich_feed', 'stoich_feed']
         for _ in range(30):
             op = rngs.sched.choice(ops)
             ev = None
@@ -232,6 +232,33 @@ class RxnWorld(BaseWorld):
                 else:
                     vals = [r.choice(FLOWS) for _ in range(n)]
                 ev = {'op': op, 'rxn': rn, 'values': vals}
+            elif op == 'derive_rxn':
+                if not self.rxns or len(self.rxns) >= 7:
+                    continue
+                rn = r.choice(sorted(self.rxns))
+                spec = self.rxns[rn][1]
+                how = 'copy' if spec['kind'] == 'single' else 'item_copy'
+                ev = {'op': op, 'rxn': rn, 'name': self.new_name('r'), 'how': how,
+                      'index': r.randint(0, max(0, len(spec['members']) - 1))}
+            elif op == 'stoich_feed':
+                # reactants fed in exactly stoichiometric proportion: full conversion consumes them down to
+                # zero up to rounding, which is the feasibility check's clean-up branch
+                if not self.rxns:
+                    continue
+                rn = r.choice(sorted(self.rxns))
+                spec = self.rxns[rn][1]
+                mem = r.choice(spec['members'])
+                amount = r.choice([0.1, 0.3, 1.0 / 7.0, 0.7, 1.0, 3.0, 0.05])
+                if r.random() < 0.5:
+                    cands = [n for n in sorted(self.streams)
+                             if isinstance(self.streams[n], tmo.MultiStream) == spec['tagged']]
+                    if not cands:
+                        continue
+                    ev = {'op': op, 'rxn': rn, 'member': spec['members'].index(mem), 'amount': amount,
+                          'stream': r.choice(cands), 'X1': r.random() < 0.8}
+                else:
+                    ev = {'op': op, 'rxn': rn, 'member': spec['members'].index(mem), 'amount': amount,
+                          'stream': None, 'X1': r.random() < 0.8}
             elif op == 'edit_rxn':
                 if not self.rxns:
                     continue
@@ -268,7 +295,7 @@ class RxnWorld(BaseWorld):
         op = ev['op']
         if op == 'noop':
             return True
-        if 'stream' in ev and ev['stream'] not in self.streams:
+        if ev.get('stream') is not None and ev['stream'] not in self.streams:
             return False
         if 'rxn' in ev and ev['rxn'] not in self.rxns:
             return False
@@ -286,6 +313,20 @@ class RxnWorld(BaseWorld):
             return (ev['phase'] is not None) == isinstance(s, tmo.MultiStream)
         if op == 'proxy':
             return ev['new'] not in self.streams
+        if op == 'derive_rxn':
+            spec = self.rxns[ev['rxn']][1]
+            if ev['name'] in self.rxns:
+                return False
+            if ev['how'] == 'copy':
+                return spec['kind'] == 'single'
+            return spec['kind'] in ('parallel', 'series') and ev['index'] < len(spec['members'])
+        if op == 'stoich_feed':
+            spec = self.rxns[ev['rxn']][1]
+            if ev['member'] >= len(spec['members']):
+                return False
+            if ev['stream'] is not None:
+                return isinstance(self.streams[ev['stream']], tmo.MultiStream) == spec['tagged']
+            return True
         if op == 'edit_rxn':
             spec = self.rxns[ev['rxn']][1]
             if ev['what'] == 'X_item':
@@ -426,6 +467,65 @@ class RxnWorld(BaseWorld):
             spec['members'][ev['index']]['X'] = ev['X']
         return 'ok'
 
+    def do_derive_rxn(self, ev):
+        """A copy of a reaction (or of an item of a set) is a reaction of its own: later in-place edits of
+        either (basis, conversion) must not reach the other.  Both stay in the pool with their own spec."""
+        obj, spec = self.rxns[ev['rxn']]
+        import copy as _copy
+        try:
+            if ev['how'] == 'copy':
+                new = obj.copy()
+                nspec = _copy.deepcopy(spec)
+            else:
+                new = obj[ev['index']].copy()
+                nspec = {'kind': 'single', 'members': [dict(spec['members'][ev['index']])], 'tagged': spec['tagged'],
+                         'pkg': spec['pkg'], 'basis': spec['basis']}
+        except Exception as e:
+            self.stats[f'exc:derive_rxn:{type(e).__name__}'] += 1
+            return f'exc:{type(e).__name__}'
+        self.rxns[ev['name']] = (new, nspec)
+        return 'ok'
+
+    def do_stoich_feed(self, ev):
+        obj, spec = self.rxns[ev['rxn']]
+        mem = spec['members'][ev['member']]
+        nu_r = -mem['stoich'][mem['reactant']]
+        n = len(IDS)
+        if spec['tagged']:
+            vals = np.zeros((len(TAG_PHASES), n))
+            for k, v in mem['stoich'].items():
+                if v < 0:
+                    vals[TAG_PHASES.index(mem['phases'][k]), IDS.index(k)] = ev['amount'] * (-v) / nu_r
+        else:
+            vals = np.zeros(n)
+            for k, v in mem['stoich'].items():
+                if v < 0:
+                    vals[IDS.index(k)] = ev['amount'] * (-v) / nu_r
+        restore = None
+        if ev['X1'] and spec['kind'] == 'single':
+            restore = mem['X']
+            obj.X = 1.0
+            mem['X'] = 1.0
+        try:
+            if ev['stream'] is None:
+                if spec['basis'] == 'wt':
+                    vals = vals * pkg('R').MW
+                return self.do_react_array({'op': 'react_array', 'rxn': ev['rxn'], 'values': vals.tolist()})
+            name = ev['stream']
+            s = self.streams[name]
+            pk = pkg(self.pkg_of[name])
+            idx = [IDS.index(c) for c in pk.ids]
+            if spec['tagged']:
+                for i, ph in enumerate(TAG_PHASES):
+                    s.imol[ph] = vals[i][idx]
+            else:
+                s.imol[...] = vals[idx]
+            return self.do_react({'op': 'react', 'rxn': ev['rxn'], 'stream': name, 'force': False})
+        finally:
+            if restore is not None:
+                obj.X = restore
+                mem['X'] = restore
+
     def do_warm(self, ev):
         s = self.streams[ev['stream']]
         try:
@@ -512,6 +612,8 @@ class RxnWorld(BaseWorld):
         scale = max(1.0, float(np.abs(m0).max()))
         # the library rejects when the negative part sums below -1e-12; between "no negative beyond rounding"
         # and "clearly negative" either outcome is accepted (rounding of the harness' own arithmetic)
+        if ((want < 0) & (want > -1e-12)).any():
+            self.stats['probe:negligible_negative_cleanup_expected'] += 1
         infeasible = bool((want < -1e-7 * scale).any())
         feasible = bool(want[want < 0].sum() > -1e-13)
         # a species consumed down to (almost) exactly zero: rounding in the library's own arithmetic (done in
@@ -545,8 +647,9 @@ class RxnWorld(BaseWorld):
                 self.fail('phase-changed', f'{ev["rxn"]}({name}) changed the phase of the stream')
             got = aR[ph0]
         detail = {'event': ev, 'spec': spec, 'feed': m0.tolist(), 'got': got.tolist(), 'expected': want.tolist()}
-        if (got < -1e-12).any():
-            self.fail('negative-flow', f'{ev["rxn"]}({name}) returned normally with a negative flow', detail)
+        if (got < 0).any():
+            self.fail('negative-flow', f'{ev["rxn"]}({name}) returned normally with a negative flow '
+                      f'({float(got.min())!r})', detail)
         if infeasible:
             self.fail('over-conversion-accepted', f'{ev["rxn"]}({name}) returned normally although the conversion requires '
                       f'a negative flow', detail)
@@ -608,6 +711,8 @@ class RxnWorld(BaseWorld):
         else:
             want = self.reference(spec, vals)
         scale = max(1.0, float(np.abs(vals).max()))
+        if ((want < 0) & (want > -1e-12)).any():
+            self.stats['probe:negligible_negative_cleanup_expected'] += 1
         infeasible = bool((want < -1e-7 * scale).any())
         feasible = bool(want[want < 0].sum() > -1e-13)
         if bool(((want < 1e-9 * scale) & (want < vals - 1e-12)).any()):
@@ -628,6 +733,9 @@ class RxnWorld(BaseWorld):
         back = np.zeros_like(vals)
         back[..., idx] = arr
         detail = {'event': ev, 'spec': spec, 'got': back.tolist(), 'expected': want.tolist()}
+        if (back < 0).any():
+            self.fail('negative-flow', f'{ev["rxn"]}(array) returned normally with a negative entry '
+                      f'({float(back.min())!r})', detail)
         if infeasible:
             self.fail('over-conversion-accepted', f'{ev["rxn"]}(array) returned normally although a flow must go negative',
                       detail)
@@ -653,7 +761,7 @@ class RxnWorld(BaseWorld):
         return out
 
     def shared_touch(self, ev):
-        return ev.get('op') if ev.get('op') in ('react', 'edit_rxn') else None
+        return ev.get('op') if ev.get('op') in ('react', 'edit_rxn', 'derive_rxn', 'stoich_feed') else None
 
 
 def _restart(stream, pid):
